@@ -10,7 +10,7 @@ import (
 	"strings"
 )
 
-func dgStep(h, v int) int { return (h*31 + v + 1) % 2147483647 }
+func dgStep(h, v int) int { return int((int64(h)*31 + int64(v) + 1) % 2147483647) }
 
 func dispatch(w []string) string {
 	switch w[0] {
